@@ -82,7 +82,8 @@ Theorem exact_count_partial : forall F f0 f1 fadd fmul fsub fopp feqb H gen w pf
      = verify_m F f0 f1 fadd fmul fsub fopp feqb H gen false Fixed w pf nonce (firstn (count_true (p_mask pf)) sup)).
 Proof.
   intros. split.
-  - intros Hlt. unfold verify_m, verify_gen. apply Nat.ltb_lt in Hlt. rewrite Hlt. reflexivity.
+  - intros Hlt. unfold verify_m, verify_gen. apply Nat.ltb_lt in Hlt. rewrite Hlt.
+    destruct (pads_bad _ _ _); reflexivity.
   - apply surplus_lemma.
 Qed.
 Print Assumptions exact_count_partial.
@@ -94,7 +95,7 @@ Theorem exact_count_strict : forall F f0 f1 fadd fmul fsub fopp fdiv finv feqb H
   verify_m F f0 f1 fadd fmul fsub fopp feqb H gen true Fixed w pf nonce sup = VAccept ->
   length sup = count_true (p_mask pf).
 Proof.
-  intros until sup. intros A. eapply verify_accept_iff in A; eauto. destruct A as [_ [E _]]. auto.
+  intros until sup. intros A. eapply verify_accept_iff in A; eauto. destruct A as [_ [_ [E _]]]. auto.
 Qed.
 Print Assumptions exact_count_strict.
 
@@ -147,6 +148,65 @@ Theorem binding_responses : forall F f0 f1 fadd fmul fsub fopp fdiv finv feqb H 
 Proof. intros; eapply binding_responses_lemma; eauto. Qed.
 Print Assumptions binding_responses.
 
+(* ---------- response counts, challenge coverage, simulated sub-proofs (crafted proofs) ---------- *)
+(* an accepted proof has exactly one response per base in both sub-proofs (2, and 2 + number of hidden messages) *)
+Theorem response_counts_exact : forall F f0 f1 fadd fmul fsub fopp fdiv finv feqb H gen,
+  is_field F f0 f1 fadd fmul fsub fopp fdiv finv -> decides_eq F feqb ->
+  forall strict w pf nonce sup,
+  verify_m F f0 f1 fadd fmul fsub fopp feqb H gen strict Fixed w pf nonce sup = VAccept ->
+  length (p_r1 pf) = 2%nat /\ length (p_r2 pf) = (2 + length (hidden_of F f0 gen w pf sup))%nat.
+Proof. intros; eapply response_counts_lemma; eauto. Qed.
+Print Assumptions response_counts_exact.
+
+(* the challenge input has 7 + |hidden| points and determines Abar, A', h0, both commitments, d and every hidden base:
+   no commitment can drop out of it *)
+Theorem challenge_covers_commitments : forall F (a b h c d : F) hid e a' b' h' c' d' hid' e',
+  length (transcript F a b h c d hid e) = (7 + length hid)%nat /\
+  (transcript F a b h c d hid e = transcript F a' b' h' c' d' hid' e' ->
+   a = a' /\ b = b' /\ h = h' /\ c = c' /\ d = d' /\ hid = hid' /\ e = e').
+Proof. intros. split; [apply transcript_length|apply transcript_inj]. Qed.
+Print Assumptions challenge_covers_commitments.
+
+(* Schnorr simulation fails: a sub-proof whose commitment was computed for a challenge cstar chosen first is accepted
+   only if the verifier's challenge (hash of a transcript containing that commitment) equals cstar, or the statement
+   point is the identity *)
+Theorem simulated_vc2_rejected : forall F f0 f1 fadd fmul fsub fopp fdiv finv feqb H gen,
+  is_field F f0 f1 fadd fmul fsub fopp fdiv finv -> decides_eq F feqb ->
+  forall strict w pf nonce sup cstar,
+  p_c2 pf = fadd (lin_m F f0 fadd fmul (p_d pf :: h0 F gen w (p_count pf) :: hidden_of F f0 gen w pf sup) (p_r2 pf))
+                 (fmul (fopp (fadd f1 (dot_m F f0 fadd fmul (rv_of F f0 gen w pf sup)))) cstar) ->
+  verify_m F f0 f1 fadd fmul fsub fopp feqb H gen strict Fixed w pf nonce sup = VAccept ->
+  fopp (fadd f1 (dot_m F f0 fadd fmul (rv_of F f0 gen w pf sup))) = f0 \/
+  H (transcript F (p_abar pf) (p_aprime pf) (h0 F gen w (p_count pf)) (p_c1 pf) (p_d pf)
+                (hidden_of F f0 gen w pf sup) (p_c2 pf)) nonce = cstar.
+Proof. intros until cstar. intros Hs A. eapply simulated_vc2_lemma; eauto. Qed.
+Print Assumptions simulated_vc2_rejected.
+
+Theorem simulated_vc1_rejected : forall F f0 f1 fadd fmul fsub fopp fdiv finv feqb H gen,
+  is_field F f0 f1 fadd fmul fsub fopp fdiv finv -> decides_eq F feqb ->
+  forall strict w pf nonce sup cstar,
+  p_c1 pf = fadd (lin_m F f0 fadd fmul [p_aprime pf; h0 F gen w (p_count pf)] (p_r1 pf))
+                 (fmul (fsub (p_abar pf) (p_d pf)) cstar) ->
+  verify_m F f0 f1 fadd fmul fsub fopp feqb H gen strict Fixed w pf nonce sup = VAccept ->
+  p_abar pf = p_d pf \/
+  H (transcript F (p_abar pf) (p_aprime pf) (h0 F gen w (p_count pf)) (p_c1 pf) (p_d pf)
+                (hidden_of F f0 gen w pf sup) (p_c2 pf)) nonce = cstar.
+Proof. intros until cstar. intros Hs A. eapply simulated_vc1_lemma; eauto. Qed.
+Print Assumptions simulated_vc1_rejected.
+
+(* a payload with a set bit at an index >= its message count is rejected by the repaired verifier (fix 99687e9);
+   the code as found tolerated it (such a bit only raised the number of messages the verifier asked for) *)
+Theorem padding_bits_rejected : forall F f0 f1 fadd fmul fsub fopp feqb H gen strict w pf nonce sup i,
+  In i (revealed_of (p_mask pf)) -> (p_count pf <= i)%nat ->
+  verify_m F f0 f1 fadd fmul fsub fopp feqb H gen strict Fixed w pf nonce sup = VReject.
+Proof.
+  intros until i. intros Hin Hge. unfold verify_m, verify_gen, pads_bad.
+  replace (forallb (fun i0 => i0 <? p_count pf) (idx_from 0 (p_mask pf))) with false; [reflexivity|].
+  symmetry. apply not_true_is_false. intros Hf. rewrite forallb_forall in Hf. specialize (Hf i Hin).
+  apply Nat.ltb_lt in Hf. apply (Nat.lt_irrefl i). eapply Nat.lt_le_trans; eauto.
+Qed.
+Print Assumptions padding_bits_rejected.
+
 (* ---------- crafted proof bytes never crash the repaired verifier; the proof buffer is left alone ---------- *)
 Theorem never_panics : forall bs, parse_sigproof Fixed bs <> PPanic.
 Proof.
@@ -160,7 +220,8 @@ Print Assumptions never_panics.
 Theorem verify_never_panics : forall F f0 f1 fadd fmul fsub fopp feqb H gen strict w pf nonce sup,
   verify_m F f0 f1 fadd fmul fsub fopp feqb H gen strict Fixed w pf nonce sup <> VPanic.
 Proof.
-  intros. unfold verify_m, verify_gen. destruct (_ || _); [discriminate|].
+  intros. unfold verify_m, verify_gen. destruct (pads_bad _ _ _); [discriminate|].
+  destruct (_ || _); [discriminate|].
   destruct (vsplit _ _ _ _ _). destruct (negb _); [discriminate|]. unfold pg1_verify.
   destruct (Nat.eqb _ _); [destruct (feqb _ _)|]; try discriminate.
   destruct (Nat.eqb _ _); [destruct (feqb _ _)|]; discriminate.
@@ -213,3 +274,21 @@ Example honest_nonvacuous :
       verify Qc 0%Qc 1%Qc Qcplus Qcmult Qcminus Qcopp qeqb qH qgen Fixed (Q2Qc 3) pf (Q2Qc 9) (select mask msgs) = VReject
   end.
 Proof. vm_compute. repeat split. Qed.
+
+(* the code as found had NO response-count check: with one surplus response per sub-proof the surplus response, not
+   the challenge, multiplies the statement point, and a holder of A', Abar (any pair with A'*w = Abar) gets a proof
+   for a message of its choice accepted.  Fix a44bd6b (count equality) rejects it. *)
+Definition surplus_forgery : proof Qc :=
+  let w := Q2Qc 2 in let m := Q2Qc 42 in
+  let hh0 := h0 Qc qgen w 1 in
+  {| p_count := 1; p_mask := [true]; p_aprime := Q2Qc 1; p_abar := Q2Qc 2; p_d := Q2Qc 5;
+     p_c1 := lin Qc 0%Qc Qcplus Qcmult [Q2Qc 1; hh0; (Q2Qc 2 - Q2Qc 5)%Qc] [Q2Qc 3; Q2Qc 4; Q2Qc 6];
+     p_r1 := [Q2Qc 3; Q2Qc 4; Q2Qc 6];
+     p_c2 := lin Qc 0%Qc Qcplus Qcmult [Q2Qc 5; hh0; (- (1 + qgen w 1 1 * m))%Qc] [Q2Qc 7; Q2Qc 8; Q2Qc 9];
+     p_r2 := [Q2Qc 7; Q2Qc 8; Q2Qc 9] |}.
+Theorem surplus_forgery_asis_refuted :
+  verify Qc 0%Qc 1%Qc Qcplus Qcmult Qcminus Qcopp qeqb qH qgen AsIs (Q2Qc 2) surplus_forgery (Q2Qc 9) [Q2Qc 42] = VAccept /\
+  verify Qc 0%Qc 1%Qc Qcplus Qcmult Qcminus Qcopp qeqb qH qgen Fixed (Q2Qc 2) surplus_forgery (Q2Qc 9) [Q2Qc 42] = VReject.
+Proof. split; vm_compute; reflexivity. Qed.
+Print Assumptions surplus_forgery_asis_refuted.
+
